@@ -10,6 +10,7 @@ import (
 	"strconv"
 	"strings"
 	"sync"
+	"time"
 
 	"xv/instr"
 	"xv/run"
@@ -246,14 +247,24 @@ func c14cliRun(bin, dir string, sc c14cliScenario, prefix []int, outFile string)
 	for i, p := range prefix {
 		parts[i] = strconv.Itoa(p)
 	}
-	cmd := exec.Command(bin, sc.Args...)
-	cmd.Dir = dir
-	cmd.Env = append(os.Environ(), "XV_SCHED_PREFIX="+strings.Join(parts, ","), "XV_SCHED_OUT="+outFile, "XV_SCHED_KEYS=1")
-	cmd.Stdin = strings.NewReader(sc.Stdin)
 	var se bytes.Buffer
-	cmd.Stderr = &se
-	if err := cmd.Run(); err != nil {
-		return nil, fmt.Errorf("instrumented tool failed: %v: %s", err, se.String())
+	for attempt := 0; ; attempt++ {
+		cmd := exec.Command(bin, sc.Args...)
+		cmd.Dir = dir
+		cmd.Env = append(os.Environ(), "XV_SCHED_PREFIX="+strings.Join(parts, ","), "XV_SCHED_OUT="+outFile, "XV_SCHED_KEYS=1")
+		cmd.Stdin = strings.NewReader(sc.Stdin)
+		se.Reset()
+		cmd.Stderr = &se
+		err := cmd.Run()
+		if err == nil {
+			break
+		}
+		// a process that could not be started (machine resources) is retried; one
+		// that ran and failed is a result
+		if _, ran := err.(*exec.ExitError); ran || attempt >= 3 {
+			return nil, fmt.Errorf("instrumented tool failed: %v: %s", err, se.String())
+		}
+		time.Sleep(time.Duration(attempt+1) * 300 * time.Millisecond)
 	}
 	b, err := os.ReadFile(outFile)
 	if err != nil {
@@ -274,7 +285,20 @@ func c14CLI(c *run.Check) {
 	defer os.RemoveAll(base)
 	bin, notes, err := c14cliBuild(base)
 	if err != nil {
-		c.Violation(map[string]string{"build": err.Error()}, "the instrumented command line tool does not build: "+err.Error())
+		// if the tool itself builds, the failure is a limitation of the source
+		// rewriter, not a property violation: the CLI half is then not explored
+		plain := exec.Command("go", "build", "-o", filepath.Join(base, "plain-xsel"), "github.com/ChrisTrenkamp/xsel/xsel")
+		plain.Dir = filepath.Join(run.VerifDir, "harness")
+		if out, perr := plain.CombinedOutput(); perr != nil {
+			c.Violation(map[string]string{"build": string(out)}, "the xsel command does not build: "+string(out))
+			return
+		}
+		msg := err.Error()
+		if len(msg) > 600 {
+			msg = msg[:600]
+		}
+		c.Set("cli_half", "not explored: the instrumented rewrite of xsel/*.go does not build on this tree (the tool itself does): "+msg)
+		c.Exhaustive = false
 		return
 	}
 	if len(notes) > 0 {
@@ -441,6 +465,13 @@ func c14CLI(c *run.Check) {
 			c.Evaluations.Add(int64(ex.Executions))
 			c.Traces.Add(int64(ex.Executions))
 		}
+		if strings.HasPrefix(ex.Violation, "HARNESS:") {
+			mu.Lock()
+			c.Set(fmt.Sprintf("cli_scenario_%d_exploration_problem", i), ex.Violation)
+			mu.Unlock()
+			c.Exhaustive = false
+			return
+		}
 		if ex.Violation != "" {
 			// re-run the recorded schedule: it must fail again
 			rep, err := c14cliRun(bin, dir, sc, ex.Schedule, outFile)
@@ -449,7 +480,13 @@ func c14CLI(c *run.Check) {
 				again, _ = c14cliJudge(rep, blocks, diags, serialOut)
 			}
 			if again == "" {
-				c.Violation(c14cliReplay{Kind: "cli", Scenario: sc, Schedule: ex.Schedule, Detail: "did not reproduce: " + ex.Violation}, "HARNESS: CLI violation did not reproduce from its schedule: "+ex.Violation)
+				// a verdict that does not reproduce from its own schedule is not believed
+				// (and not reported as a violation): the run is marked non-exhaustive
+				mu.Lock()
+				c.Set(fmt.Sprintf("cli_scenario_%d_unreproducible_verdict", i), ex.Violation)
+				mu.Unlock()
+				c.Exhaustive = false
+				fmt.Println("note: a CLI verdict did not reproduce from its recorded schedule and is not reported:", ex.Violation)
 				return
 			}
 			c.Violation(c14cliReplay{Kind: "cli", Scenario: sc, Schedule: ex.Schedule, Detail: ex.Violation}, fmt.Sprintf("xsel %s under schedule %s: %s", strings.Join(sc.Args, " "), compactSchedule(ex.Schedule), ex.Violation))
